@@ -9,6 +9,7 @@ tree spec (JSON-able):
   aspec: None | int | {constituency: int} | ['ev', tree]             conv: [id, name]
   ['vsys', child]  votelib.VotingSystem around child
   ['unused', [children], [[id, quota-name]..], depth]   UnusedVotesDistributor (quota functions are parts, like leaves)
+  ['byconsp', child, aspec (None | int | dict), preselector]   ByConstituency with a preselector
   ['adj', calc, child]   AdjustedSeatCount; calc: ['calc', id, kind, params] (a calculator object as a part: 'allow' / 'level' over a
                          leaf spec, 'levelbyc') | ['allow', tree] | ['level', tree] (AllowOverhang / LevelOverhang over a tree: embedded)
 """
@@ -221,6 +222,9 @@ class Built:
             elif isinstance(a, dict):
                 a = dict(a)
             o = core.ByConstituency(e, apportioner=a) if k == 'bycons' else core.PreApportioned(e, a)
+        elif k == 'byconsp':
+            e = self._b(t[1])
+            o = core.ByConstituency(e, apportioner=(dict(t[2]) if isinstance(t[2], dict) else t[2]), preselector=self._b(t[3]))
         elif k == 'remapp':
             o = core.RemovedApportionment(self._b(t[1]))
         elif k == 'byparty':
@@ -298,6 +302,10 @@ def wire(t):
         if c[0] == 'allow':
             return '(19 %s %s)' % (wire(c[1]), wire(t[2]))
         return '(20 %s %s %d)' % (wire(c[1]), wire(t[2]), LEVEL_FUEL)
+    if k == 'byconsp':
+        a = t[2]
+        asx = '(0)' if a is None else ('(1 %d)' % a if isinstance(a, int) else '(2 %s)' % enc(a))
+        return '(21 %s %s %s)' % (wire(t[1]), asx, wire(t[3]))
     raise ValueError(k)
 
 
@@ -363,6 +371,8 @@ class Hand:
             return self.cond(t, votes, **a)
         if k == 'bycons':
             return self.bycons(t, votes, **a)
+        if k == 'byconsp':
+            return self.byconsp(t, votes, **a)
         if k == 'preapp':
             n_seats, prev, mx = a.get('n_seats'), a.get('prev_gains', {}), a.get('max_seats', {})
             return self.run(t[1], votes, n_seats=self.apportion(t[2], votes, n_seats), prev_gains=prev, max_seats=mx)
@@ -426,14 +436,27 @@ class Hand:
         raise ValueError('no apportionment')
 
     # per-constituency evaluation = each constituency separately with its apportioned seats
-    def bycons(self, t, votes, n_seats=None, prev_gains={}, max_seats={}):
+    def byconsp(self, t, votes, n_seats=None, prev_gains={}, max_seats={}):
+        # the candidates preselected on the national totals; every constituency on its votes restricted to them
         app = self.apportion(t[2], votes, n_seats)
+        totals = {}
+        for v in votes.values():
+            for p, x in v.items():
+                totals[p] = totals.get(p, 0) + x
+        keep = self.run(t[3], totals, n_seats=n_seats) if n_seats is not None and self.takes(t[3], 'n_seats') else self.run(t[3], totals)
+        return self.bycons(t, votes, n_seats, prev_gains, max_seats, keep=keep, app=app)
+
+    def bycons(self, t, votes, n_seats=None, prev_gains={}, max_seats={}, keep=None, app=None):
+        if app is None:
+            app = self.apportion(t[2], votes, n_seats)
         out, empty = {}, []
         for c, v in votes.items():
             n = app.get(c, 0)
             if n == 0:
                 empty.append(c)
                 continue
+            if keep is not None:
+                v = {p: x for p, x in v.items() if p in keep}
             if self.takes(t[1], 'prev_gains'):
                 out[c] = self.run(t[1], v, n_seats=n, prev_gains=prev_gains.get(c, {}), max_seats=max_seats.get(c, {}))
             else:
